@@ -257,6 +257,10 @@ EXEC_SCRIPTS = {
     "reassign-from-other-list-same-size-then-mutate": "a = [1, 2]\nb = [3, 4]\nb = a\nb.append(5)\nmon.write(a[0])\nmon.write(a[1])\nmon.write(b[2])\nwhile True:\n    a.append(9)\n    a.remove(9)\n    mon.write(b[0])\n    sleep(1)\n",
     "reassign-from-other-list-then-mutate-source": "a = [1, 2, 3]\nb = [0, 0, 0]\nb = a\na.append(4)\na.remove(1)\nmon.write(b[0])\nmon.write(b[2])\nmon.write(a[0])\n",
     "reassign-in-loop-from-other-list": "a = [1, 2]\nb = [5, 6]\nk = 0\nwhile True:\n    b = a\n    b.append(k)\n    b.remove(k)\n    mon.write(b[0] + a[1])\n    k = k + 1\n    sleep(1)\n",
+    "swap-two-lists": "a = [1, 2, 3]\nb = [7, 8, 9]\nwhile True:\n    a, b = b, a\n    mon.write(a[0])\n    mon.write(b[2])\n    a.append(4)\n    a.remove(4)\n    sleep(1)\n",
+    "rotate-three-lists": "r = [1]\ng = [2, 2]\nb = [3, 3, 3]\nwhile True:\n    r, g, b = g, b, r\n    mon.write(r[0])\n    mon.write(g[0])\n    mon.write(b[0])\n    sleep(1)\n",
+    "conditional-double-buffer-swap": "front = [0, 0]\nback = [5, 5]\nk = 0\nwhile True:\n    if k % 2 == 0:\n        front, back = back, front\n    front.append(k)\n    front.remove(k)\n    mon.write(front[0] + back[1])\n    k = k + 1\n    sleep(1)\n",
+    "comprehension-over-range-runtime-bounds": "n = 5\nwhile True:\n    sq = [i * 2 for i in range(n)]\n    mon.write(sq[-1])\n    mon.write(sq[0])\n    sleep(1)\n",
     "comprehension-then-index": "while True:\n    sq = [i * i for i in range(5)]\n    mon.write(sq[4])\n    mon.write(sq[-1])\n    sleep(1)\n",
     "list-passed-through-helper-index": "xs = [4, 5, 6]\ndef at(k):\n    return xs[k]\nj = 0\nwhile True:\n    v = at(j % 3)\n    mon.write(v)\n    j = j + 1\n    sleep(1)\n",
     "remove-until-short": "xs = [1, 2, 3, 4, 5, 6, 7]\nwhile True:\n    xs.remove(xs[0])\n    mon.write(xs[0])\n    mon.write(xs[-1])\n    sleep(1)\n",
